@@ -65,6 +65,8 @@ def _symx_in(a, b):
     if isinstance(a, SStr):
         if isinstance(b, str):
             return lift(b).__contains__(a)
+        if hasattr(b, "_it") and hasattr(type(b), "_has" if isinstance(b, set) else "_find"):
+            return a in b          # harness containers with solver-compared keys implement __contains__ themselves
         if isinstance(b, (set, frozenset, dict)) or type(b).__name__ in ("dict_keys", "KeysView"):
             # membership in a hashed container of strings == equality with one of its keys: one formula, one decision
             fs = []
